@@ -377,12 +377,12 @@ Lemma first_ok : prefix t = None ->
 Proof.
   intros Et. pose proof (parse_info s t Hparse) as Hpi. rewrite Et in Hpi. destruct Hpi as [Hfr Hs].
   assert (Hfirst : exists f1 r, fs = f1 :: r /\ f_omit f1 = false /\ f_group f1 = false).
-  { specialize (Hhd Et). unfold headed in Hhd. unfold prefix_fact in Hpf. rewrite Et in Hpf. fold fs in Hhd.
+  { pose proof (Hhd Et) as Hh. unfold headed in Hh. unfold prefix_fact in Hpf. rewrite Et in Hpf. fold fs in Hh.
     destruct (ti_prefix ti) as [p|].
-    - destruct Hpf as [Hom _]. rewrite Hom in Hhd. cbn [negb orb] in Hhd.
-      destruct fs as [|f1 r]; [discriminate|]. apply andb_true_iff in Hhd. destruct Hhd as [A B].
+    - destruct Hpf as [Hom _]. rewrite Hom in Hh. cbn [negb orb] in Hh.
+      destruct fs as [|f1 r]; [discriminate|]. apply andb_true_iff in Hh. destruct Hh as [A B].
       apply negb_true_iff in A, B. eauto.
-    - cbn [orb] in Hhd. destruct fs as [|f1 r]; [discriminate|]. apply andb_true_iff in Hhd. destruct Hhd as [A B].
+    - cbn [orb] in Hh. destruct fs as [|f1 r]; [discriminate|]. apply andb_true_iff in Hh. destruct Hh as [A B].
       apply negb_true_iff in A, B. eauto. }
   destruct Hfirst as (f1 & r & Efs & Hom & Hgf).
   destruct (Hhead f1 r Efs Hgf Hom) as (t1 & v1 & u & rest' & fr0 & frs & Ests' & Efr & (n0 & -> & Hn0) & Hu).
@@ -424,12 +424,12 @@ Proof.
     rewrite (sc_emit cb sv fs None [] off off None).
     - cbn [gT rev]. apply F_flat.
     - intros f Hf Hpf'. apply (present_nd f Hf Hpf'). }
-  pose proof (parse_info s t Hparse) as Hpi.
+  pose proof (parse_info s t Hparse) as Hpi. pose proof first_ok as Hfo.
   destruct (prefix t) as [ptxt|] eqn:Et.
   - subst ptxt'. destruct Hpi as [Hsh _].
     eexists. split; [apply parse_prefix_body; exact Hsh|]. split; [reflexivity|apply Hnodes].
   - subst ptxt'. cbn [app].
-    eexists. split; [apply parse_noprefix; apply first_ok; exact Et|]. split; [reflexivity|apply Hnodes].
+    eexists. split; [apply parse_noprefix; apply Hfo; reflexivity|]. split; [reflexivity|apply Hnodes].
 Qed.
 
 Lemma explicit_E2 E2 : E2 = [] \/ E2 = [[]] -> forallb explicit_empty (map norm_text E2) = true.
